@@ -191,7 +191,22 @@ type c02Rec struct {
 	slowRead time.Duration
 	// gate (slow-store mode, c02gate.go): every write waits until the harness lets it through
 	gate *c02Gate
+	// torn: durable states of the backend, seen while it applied a flush of the node, that hold a part of it (c02backend.go)
+	torn []c02TornFlush
 }
+
+// c02TornFlush: the database after backend commit Seq (of Of) of the flush that became batch NB: batches [0, NB) and a part of batch NB
+type c02TornFlush struct {
+	NB, Seq, Of int
+	State       c02CSState
+	Dump        map[string][]byte
+	Height      uint32
+}
+
+var (
+	c02InfraErr        error
+	c02ObservedFlushes int
+)
 
 func c02IsStor(k string) bool {
 	return len(k) > 0 && (k[0] == byte(storage.STStorage) || k[0] == byte(storage.STTempStorage))
@@ -239,7 +254,31 @@ func (s *c02Rec) PutChangeSet(puts map[string][]byte, stor map[string][]byte) er
 	defer s.mu.Unlock()
 	h, hh := s.heights()
 	b := c02Batch{Kind: "put", Mem: c02CopyMap(puts), Stor: c02CopyMap(stor), Height: h, HdrH: hh, Who: who}
-	err := s.base.PutChangeSet(puts, stor)
+	var err error
+	if s.gate == nil {
+		// a persistent backend: every durable state the backend goes through while it applies this change set
+		var obs *c02PutObs
+		obs, err = c02ObservedPut(s.base, puts, stor)
+		if err != nil && strings.HasPrefix(err.Error(), "infrastructure:") && c02InfraErr == nil {
+			c02InfraErr = err
+		}
+		if obs != nil {
+			c02ObservedFlushes++
+			for _, d := range obs.torn() {
+				t := c02TornFlush{NB: len(s.batches), Seq: d.Seq, Of: obs.Commits, State: d.State, Dump: d.Dump, Height: h}
+				if d.File != "" {
+					if img, ierr := c02OpenBolt(d.File); ierr == nil {
+						t.Dump = c02Dump(img)
+						img.Close()
+					}
+				}
+				s.torn = append(s.torn, t)
+			}
+			obs.dropImages()
+		}
+	} else {
+		err = s.base.PutChangeSet(puts, stor)
+	}
 	if err == nil {
 		s.batches = append(s.batches, b)
 		if s.onBatch != nil {
@@ -307,8 +346,11 @@ func c02NewStore(kind string) (*c02Store, error) {
 		if err != nil {
 			return nil, err
 		}
-		st, err := storage.NewBoltDBStore(dbconfig.BoltDBOptions{FilePath: filepath.Join(d, "db.bolt")})
-		return &c02Store{st: st, dir: d}, err
+		st, err := c02OpenBolt(filepath.Join(d, "db.bolt")) // reports its commits to the harness (c02backend.go)
+		if err != nil {
+			return &c02Store{dir: d}, err
+		}
+		return &c02Store{st: st, dir: d}, nil
 	}
 	return nil, fmt.Errorf("unknown backend %q", kind)
 }
